@@ -112,11 +112,11 @@ for _nm, _shape, _tier in (("2f", "1 record x 2 fields", "quick"), ("1f_pad3", "
                           ("1f_0f_1f", "3 records with 1,0,1 fields", "thorough"),
                           ("1f_trunc", "1 complete record + a record header announcing 9 fields with 2 bytes left", "quick"),
                           ("only_trunc", "no complete record: header announcing 9 fields + 1 byte", "thorough")):
-    reg(["C04", "C06", "C01"], H("s9::s_v9_template_" + _nm, unwind=5, loops=[(r"many0::<&\[u8\], u8", 9), (r"nfv2s9", 8)], timeout=1800, mem_gb=30, mem_est=9, tier=_tier,
+    reg(["C04", "C06", "C01"], H("s9::s_v9_template_" + _nm, unwind=5, loops=[(r"many0::<&\[u8\], u8", 9), (r"nfv2s9", 8)], timeout=1800, mem_gb=30, tier=_tier,
         desc="v9::FlowSet::parse, template flowset shape [%s] vs a symbolic one-entry cache: records as sent, padding, consumption, cache post-state (last wins, others untouched, incomplete record ignored)" % _shape,
         bounds={"shape": _shape + " (written)", "symbolic": "template ids, field types/lengths, padding bytes, cached entry, probe id"}))
 for _nm, _shape, _tier in (("1_1", "1 scope + 1 option field + 2 padding", "quick"), ("2_0", "2 scope fields", "thorough"), ("0_2", "2 option fields + 3 padding", "thorough")):
-    reg(["C04", "C06", "C01"], H("s9::s_v9_options_template_" + _nm, unwind=5, timeout=1800, mem_gb=30, mem_est=6, tier=_tier,
+    reg(["C04", "C06", "C01"], H("s9::s_v9_options_template_" + _nm, unwind=5, timeout=1800, mem_gb=30, tier=_tier,
         desc="v9::FlowSet::parse, options-template flowset shape [%s]: record as sent, padding, cached" % _shape,
         bounds={"shape": _shape + " (written)", "symbolic": "template id, field types/lengths, padding bytes"}))
 reg(["C04", "C06", "C07", "C01"], H("s9::s_v9_data_dispatch", unwind=9, timeout=1200, mem_gb=10,
@@ -166,7 +166,7 @@ reg(["C02"], H("w::w_empty", unwind=5, timeout=300, mem_gb=4,
 _D10 = "ipfix::Data::parse / OptionsData::parse replaced by models exact on the harness domain (every cached field fixed-length >= 8, body <= 7 bytes => first field read fails => Err)"
 for _nm, _shape, _tier in (("1p_pad3", "1 plain specifier + 3 padding bytes", "quick"), ("2p", "2 plain specifiers", "thorough"),
                           ("e_p", "enterprise + plain specifier + 2 padding bytes", "quick"), ("p_e", "plain + enterprise specifier", "thorough")):
-    reg(["C05", "C06", "C01"], H("s10::s_ipfix_template_" + _nm, unwind=4, timeout=1500, mem_gb=30, mem_est=15, tier=_tier,
+    reg(["C05", "C06", "C01"], H("s10::s_ipfix_template_" + _nm, unwind=4, timeout=1500, mem_gb=30, tier=_tier,
         desc="ipfix::FlowSet::parse, template set shape [%s] vs symbolic one-entry cache: record as sent incl. enterprise numbers, padding, cache post-state (replace/add, other entry untouched); refused set leaves cache unchanged" % _shape,
         bounds={"shape": _shape + " (written)", "symbolic": "template id, ie ids, field lengths, enterprise numbers, padding bytes, cached entry"}))
 reg(["C05"], H("s10::s_ipfix_template_two_records_kf", unwind=5, timeout=900, mem_gb=8, expect="fail", finding="C05-multi-record-template-set",
@@ -186,7 +186,7 @@ reg(["C05", "C01"], H("d10::d_ipfix_two_fields", unwind=4, timeout=2400, mem_gb=
 reg(["C05", "C01"], H("d10::d_ipfix_three_records", unwind=5, timeout=2400, mem_gb=30,
     desc="ipfix::Data::parse, one 2-byte field, 7-byte body: 3 records (recursion depth 4) + 1 padding byte",
     bounds={"body_bytes": 7, "fields": 1, "records": 3}, assumptions=[_K9]))
-reg(["C05", "C01"], H("d10::d_ipfix_two_records", unwind=3, loops=[(r"drop_glue|drop_in_place", 3)], timeout=2400, mem_gb=30, mem_est=12, fs=4096,
+reg(["C05", "C01"], H("d10::d_ipfix_two_records", unwind=3, loops=[(r"drop_glue|drop_in_place", 3)], timeout=2400, mem_gb=30, fs=4096,
     desc="ipfix::Data::parse, one 2-byte field, 5-byte body: 2 records + 1 padding byte", bounds={"body_bytes": 5, "fields": 1, "records": 2}, assumptions=[_K9]))
 reg(["C05", "C01"], H("d10::d_ipfix_varlen_one_record", unwind=5, timeout=2400, mem_gb=30,
     desc="ipfix::Data::parse, variable-length field (1-byte and 255+2-byte prefix) + 1-byte field, one record",
@@ -204,17 +204,17 @@ for _nm, _shape, _tier in (("two_sets_tail", "count 2: template flowset(6) + opt
                           ("unknown_second", "count 2: template flowset then data flowset for an undefined id", "quick"),
                           ("truncated_second", "count 2: second flowset announces 40 bytes, 6 present", "thorough"),
                           ("count0_tail", "count 0 + 6 trailing bytes", "thorough")):
-    reg(["C02", "C04", "C07", "C11", "C14", "C01"], H("p::p_v9_" + _nm, unwind=5, timeout=1800, mem_gb=24, mem_est=8, tier=_tier,
+    reg(["C02", "C04", "C07", "C11", "C14", "C01"], H("p::p_v9_" + _nm, unwind=5, timeout=1800, mem_gb=24, tier=_tier,
         desc="V9::parse on [%s]: header as sent, first `count` flowsets (or until the buffer ends), consumed = 20 + sum(length), any failing flowset fails the packet" % _shape,
         bounds={"shape": _shape + " (written)", "symbolic": "header words, padding bytes"}, assumptions=[_S9]))
 for _nm, _shape, _tier in (("two_templates_tail", "2 template sets + 3 bytes after the message", "quick"),
                           ("template_then_unknown", "template set then data set for an undefined id", "quick"),
                           ("truncated_after_template", "template set + data set, announced length 2 bytes beyond the buffer", "quick"),
                           ("header_only_tail", "no set, 4 bytes after the message", "thorough")):
-    reg(["C02", "C05", "C07", "C11", "C14", "C01"], H("p::p_ipfix_" + _nm, unwind=5, timeout=1800, mem_gb=24, mem_est=8, tier=_tier,
+    reg(["C02", "C05", "C07", "C11", "C14", "C01"], H("p::p_ipfix_" + _nm, unwind=5, timeout=1800, mem_gb=24, tier=_tier,
         desc="IPFix::parse on [%s]: header as sent, window = length-16, decodable sets reported in order, undecodable set omitted, length beyond buffer => Err before anything is learned" % _shape,
         bounds={"shape": _shape + " (written)", "symbolic": "header words, template ids, field specifiers"}, assumptions=[_S10]))
-reg(["C05"], H("p::p_ipfix_sets_after_skipped_kf", unwind=5, timeout=1800, mem_gb=24, mem_est=8, expect="fail", finding="C05-sets-after-undecodable-dropped",
+reg(["C05"], H("p::p_ipfix_sets_after_skipped_kf", unwind=5, timeout=1800, mem_gb=24, expect="fail", finding="C05-sets-after-undecodable-dropped",
     desc="finding witness: a decodable set after an undecodable one is dropped", bounds={"shape": "data set for an undefined id, then a template set"}, assumptions=[_S10]))
 
 
@@ -286,6 +286,18 @@ reg(["C06", "C11"], H("e2e::e2e_v9_split", unwind=6, timeout=3000, mem_gb=30, ti
 reg(["C06", "C07"], H("e2e::e2e_v9_template_ipfix_data", unwind=6, timeout=3000, mem_gb=30, tier="thorough",
     desc="a V9 template does not govern an IPFIX data set of the same id (protocol scoping)", bounds=dict(_E, bytes=56), assumptions=[_K9]))
 
+for _v in (5, 9, 10):
+    reg(["C12", "C06"], H("w::w_allowed_narrowed_%d" % _v, unwind=2, loops=_WL, timeout=1500, mem_gb=16, tier="quick" if _v == 9 else "thorough",
+        desc="allowed_versions narrowed between two calls (version %d header-only packet): accepted while allowed, silently dropped once v is removed from the set" % _v,
+        bounds={"calls": 2, "allowed": "default set, then v removed and a symbolic other number added"}, assumptions=[_W]))
+reg(["C07", "C06"], H("p::p_v9_unknown_then_template", unwind=5, timeout=1800, mem_gb=24,
+    desc="V9::parse on [data flowset for an undefined id, then the template flowset defining a (symbolic) id]: packet is an error and nothing is cached (flowset order matters: a later template does not rescue earlier data)",
+    bounds={"shape": "count 2: data(id 300, 8 bytes) + template flowset with one 1-field record (written)", "symbolic": "template id, field, data bytes"}, assumptions=[_S9]))
+reg(["C06", "C07", "C01"], H("s10::s_ipfix_undecodable_data_keeps_template", unwind=4, timeout=1800, mem_gb=24,
+    desc="ipfix::FlowSet::parse with the REAL Data/OptionsData::parse on a data set shorter than one record: refused, and the referenced (options) template is still cached afterwards",
+    bounds={"body_bytes": "<=7", "cached": "one (options) template, id 300, one unsigned field declared >= 8 bytes"},
+    assumptions=["kernel replaced by the model 'fewer bytes than declared => Err' (exact for unsigned fields, k::k_unsigned)"]))
+
 
 # ---------------------------------------------------------------- C17: parse_unknown_fields off
 _OFF = "harness crate /verif/kani_off builds /repo with default-features = false; the oracle (model) is the same source as in the default build, so a pass means identical behaviour on the covered inputs"
@@ -301,7 +313,7 @@ reg(["C17"], H("d9::d_v9_unknown_field_off", unwind=8, feature="off", timeout=15
     desc="feature off: V9 data flowset under a template with an unknown field type yields no record",
     bounds={"body_bytes": 6, "field_type": "every number the library maps to Unknown", "field_length": "1..=3"},
     assumptions=[_OFF, "kernel replaced by the model 'Unknown => Err' that k::k_unknown_off shows exact"]))
-reg(["C17"], H("d10::d_ipfix_unknown_field_off", unwind=3, loops=[(r"drop_glue|drop_in_place", 3)], feature="off", timeout=1800, mem_gb=30, mem_est=12,
+reg(["C17"], H("d10::d_ipfix_unknown_field_off", unwind=3, loops=[(r"drop_glue|drop_in_place", 3)], feature="off", timeout=1800, mem_gb=30,
     desc="feature off: IPFIX data set under a template with an unknown field type is not decoded",
     bounds={"body_bytes": 4, "field_type": "every number < 32768 the library maps to Unknown", "field_length": "1..=3 or 65535 (variable length)"},
     assumptions=[_OFF, "kernel replaced by the model 'Unknown => Err' that k::k_unknown_off shows exact"]))
@@ -318,7 +330,7 @@ for _l, _tier in ((16, "thorough"), (17, "quick"), (22, "quick"), (3, "thorough"
     reg(["C02", "C11", "C14", "C05", "C01"], H("w::wr_ipfix_entry_%d" % _l, unwind=6, timeout=1500, mem_gb=12, tier=_tier,
         desc="IPFixParser::parse, message length %d (written), no decodable set: remaining starts exactly at max(length,16) (no skipping/alignment), Err iff the window exceeds the buffer, caches untouched" % _l,
         bounds={"bytes": 26, "length": _l, "sets": "one undecodable data set (id 300)"}))
-for _nm, _w, _tier in (("c0_s3", "count 0 + 3 stray bytes", "thorough"), ("c2_s0", "count 2, nothing after the header", "thorough"),
+for _nm, _w, _tier in (("c0_s3", "count 0 + 3 stray bytes", "quick"), ("c2_s0", "count 2, nothing after the header", "thorough"),
                        ("c2_s2", "count 2 + 2 stray bytes", "thorough"), ("c1_s3", "count 1 + 3 stray bytes", "quick")):
     reg(["C02", "C11", "C14", "C04", "C01"], H("w::wr_v9_entry_" + _nm, unwind=6, timeout=1500, mem_gb=12, tier=_tier,
         desc="V9Parser::parse, %s: stray bytes shorter than a flowset header are never absorbed (Err) and unconsumed bytes are handed back" % _w,
@@ -336,7 +348,7 @@ def all_harnesses():
 
 # quick tier overrides decided by measurement (see DESIGN section 8): harnesses that do not finish
 # within the quick budget run in the thorough tier only
-THOROUGH_ONLY = [r"^ser::", r"^cv::", r"^d10::", r"^e2e::", r"^d9::d_v9_two_fields",
+THOROUGH_ONLY = [r"^ser::", r"^cv::", r"s_ipfix_undecodable", r"^p::p_v9_(two_sets_tail|count_gt)", r"^d10::", r"^e2e::", r"^d9::d_v9_two_fields",
                  r"^w::w_real_5_stray", r"^fixed::error_common", r"count_\d+$"]
 C01_QUICK = {"k::k_unsigned", "k::k_vec", "d9::d_v9_zero_size_template_1", "d9::d_v9_three_records", "s9::s_v9_template_1f_trunc",
              "s9::s_v9_data_dispatch", "s10::s_ipfix_data_dispatch", "w::w_real_9cut", "w::wr_ipfix_entry_22", "w::wr_v9_entry_c1_s3",
